@@ -73,10 +73,12 @@ def render_outc(o):
 LOOKUPS = ([["group", p] for p in PROTS + [UNKNOWN]] +
            [["idxs", ["A", "B"]], ["idxs", [UNKNOWN]], ["idxs", ["C", UNKNOWN]],
             ["groups", ["A", "B", "C"]], ["groups", [UNKNOWN]], ["groups", ["B", UNKNOWN]],
-            ["leading", ["A", "B"]], ["leading", ["C"]], ["leading", [UNKNOWN]]])
+            ["leading", ["A", "B"]], ["leading", ["C"]], ["leading", [UNKNOWN]],
+            # proteins that only enter the collection later (absent from an index built before)
+            ["idxs", ["D"]], ["idxs", ["D", UNKNOWN]], ["groups", ["D", "E"]], ["group", "D"], ["leading", ["D"]]])
 
 OP_ALPHABET = [
-    ["append", ["C"]], ["append", []], ["extend", [["B", "C"], ["A"]]],
+    ["append", ["C"]], ["append", []], ["extend", [["B", "C"], ["A"]]], ["append", ["D", "E"]],
     ["merge", "A", "B"], ["merge", "B", "A"], ["merge", "A", "C"], ["merge", "C", "C"], ["merge", "A", UNKNOWN],
     ["remove_empty"], ["create_index"],
     ["add_unseen", [["A", "D"], ["B"], ["E"]]], ["add_unseen", [["A"], ["C", "B"]]],
@@ -223,10 +225,18 @@ def property_violation(case, out):
                 for p in l[1]:
                     if not any(p in g for g in groups) and -1 not in o["ok"]:
                         return ("unknown-protein-not-reported-missing", si, l)
+                # ... and a protein that is in a group has that group's position in the answer (never silently "missing")
+                for p in l[1]:
+                    pos = [i for i, g in enumerate(groups) if p in g]
+                    if pos and not any(i in o["ok"] for i in pos):
+                        return ("grouped-protein-reported-missing", si, l)
             elif k == "groups":
                 for g in o["ok"]:
                     if g not in groups or not any(p in g for p in l[1]):
                         return ("unknown-protein-mapped-to-existing-group", si, l)
+                for p in l[1]:
+                    if any(p in g for g in groups) and not any(p in g for g in o["ok"]):
+                        return ("group-of-a-grouped-protein-not-returned", si, l)
             elif k == "leading":
                 for x in o["ok"]:
                     if not any(g and g[0] == x and any(p in g for p in l[1]) for g in groups):
